@@ -25,10 +25,12 @@ const VOCAB: &[&str] = &[
     "github", "linux", "monday", "iphone",
     // entries the curated dictionary lists for another dialect than the default (American) one
     "colour", "instil",
+    // the words of the pre-existing dictionary files (PRESEEDS)
+    "quuxify", "wibblefrotz",
 ];
 
 /// user dictionary files as a user (or another tool) may have left them on disk
-const PRESEEDS: &[&str] = &["", "", "quuxify\nwibblefrotz\n", "quuxify\nwibblefrotz", "quuxify", "quuxify\n\nwibblefrotz\n"];
+const PRESEEDS: &[&str] = &["", "", "quuxify\nwibblefrotz\n", "quuxify\nwibblefrotz", "quuxify", "quuxify\n\nwibblefrotz\n", "quuxify\r\nwibblefrotz\r\n", "wibblefrotz\r\nquuxify"];
 
 #[derive(Debug, Clone, Serialize, Deserialize, PartialEq, Eq, Hash)]
 pub enum Op {
@@ -93,6 +95,24 @@ fn diag_text(text: &str, d: &Diag) -> String {
     let s = pos_to_index(&c, Pos { line: d.start.0, col: d.start.1 });
     let e = pos_to_index(&c, Pos { line: d.end.0, col: d.end.1 });
     c[s..e.max(s)].iter().collect()
+}
+
+/// Like `keys`, but a spelling diagnostic is identified by its place and the flagged word only:
+/// its message and suggestions quote the nearest dictionary words, and those legitimately change
+/// when the dictionary gains a word.
+fn keys_modulo_suggestions(text: &str, ds: &[Diag]) -> Vec<String> {
+    let mut v: Vec<String> = ds
+        .iter()
+        .map(|d| {
+            if is_spelling(d) {
+                format!("{:?}-{:?} spelling of {:?}", d.start, d.end, diag_text(text, d))
+            } else {
+                d.key()
+            }
+        })
+        .collect();
+    v.sort();
+    v
 }
 
 fn keys(ds: &[Diag]) -> Vec<String> {
@@ -248,7 +268,7 @@ fn history(c: &DictCase, ctx: &mut CaseCtx, _allow_case_variants: bool) -> Resul
                     .filter(|d| !(is_spelling(d) && diag_text(&s.texts[i], d) == word))
                     .cloned()
                     .collect();
-                if keys(&expect) != keys(&s.diags[i]) {
+                if keys_modulo_suggestions(&s.texts[i], &expect) != keys_modulo_suggestions(&s.texts[i], &s.diags[i]) {
                     fail!(
                         "step {step}: after {cmd}({word:?}) document {i} reports {:?}; expected the previous diagnostics minus the spelling lints on that word: {:?}",
                         keys(&s.diags[i]), keys(&expect)
@@ -292,7 +312,7 @@ fn history(c: &DictCase, ctx: &mut CaseCtx, _allow_case_variants: bool) -> Resul
                             .filter(|d| !(is_spelling(d) && diag_text(&s.texts[j], d) == word))
                             .cloned()
                             .collect();
-                        if keys(&expect) != keys(&s.diags[j]) {
+                        if keys_modulo_suggestions(&s.texts[j], &expect) != keys_modulo_suggestions(&s.texts[j], &s.diags[j]) {
                             fail!(
                                 "step {step}: after adding {word:?} to the user dictionary document {j} reports {:?}, expected {:?}",
                                 keys(&s.diags[j]), keys(&expect)
@@ -594,6 +614,140 @@ pub fn js_strategy() -> BoxedStrategy<JsCase> {
     )
         .prop_map(|(ops, dialect)| JsCase { ops, dialect })
         .boxed()
+}
+
+// ------------------------------------------------------------------------------------------------
+// large dictionaries of non-ASCII words; dictionaries that are symbolic links
+
+#[derive(Debug, Clone, Serialize, Deserialize, PartialEq, Eq, Hash)]
+pub struct LargeDictCase {
+    pub words: usize,
+    /// length of a padding word in front (shifts every later word against I/O block boundaries)
+    pub shift: u8,
+    /// the configured dictionary path is a relative symbolic link to a file elsewhere
+    pub symlink: bool,
+    pub crlf: bool,
+}
+
+/// Latin letters of 2 and 3 bytes (words in other scripts are not spell-checked at all)
+const ALPHABETS: &[&str] = &["àáâãäåçèéêëìíîïñòóôõöùúûüýÿ", "ḁḃḅḇḉḋḍḏḑḓḕḗḙḛ", "āăąćĉċčďđēĕėęěĝğġģ", "ẁẃẅẇẉẋẍẏẑẓẕạảấầẩẫậ"];
+
+fn big_word(i: usize) -> String {
+    // distinct lower-case words of 2- and 3-byte letters: the index is spelt in the alphabet
+    let alpha: Vec<char> = ALPHABETS[i % ALPHABETS.len()].chars().collect();
+    let mut n = i / ALPHABETS.len() + alpha.len() * alpha.len();
+    let mut w = String::new();
+    while n > 0 {
+        w.push(alpha[n % alpha.len()]);
+        n /= alpha.len();
+    }
+    for k in 0..(i % 5) {
+        w.push(alpha[(i + k) % alpha.len()]);
+    }
+    w
+}
+
+pub fn test_large_dict(c: &LargeDictCase, ctx: &mut CaseCtx) -> Result<(), String> {
+    let r = (|| -> Result<Result<(), String>, LspError> {
+        let io = |e: std::io::Error| LspError::Protocol(e.to_string());
+        let sb = Sandbox::new("c07big");
+        let link = sb.user_dict();
+        std::fs::create_dir_all(link.parent().unwrap()).map_err(io)?;
+        let real = if c.symlink { sb.root.join("dotfiles/harper/dictionary.txt") } else { link.clone() };
+        std::fs::create_dir_all(real.parent().unwrap()).map_err(io)?;
+        let mut words: Vec<String> = vec![];
+        if c.shift > 0 {
+            words.push(format!("z{}", "q".repeat(c.shift as usize)));
+        }
+        words.extend((0..c.words).map(big_word));
+        let eol = if c.crlf { "\r\n" } else { "\n" };
+        let content: String = words.iter().map(|w| format!("{w}{eol}")).collect();
+        std::fs::write(&real, &content).map_err(io)?;
+        if c.symlink {
+            // relative to the directory of the link, as a dotfiles manager creates it
+            std::os::unix::fs::symlink("../dotfiles/harper/dictionary.txt", &link).map_err(io)?;
+        }
+        let mut text = String::new();
+        for chunk in words.chunks(8) {
+            text.push_str("We like ");
+            text.push_str(&chunk.join(" and "));
+            text.push_str(".\n");
+        }
+        text.push_str("We like frobnix and ùúûüýÿḁḃ here.\n");
+        let doc = sb.ws_file("big.txt");
+        std::fs::write(&doc, &text).map_err(io)?;
+        let uri = sb.uri("big.txt");
+        let set: BTreeSet<&str> = words.iter().map(|w| w.as_str()).collect();
+        let reported = |diags: &[Diag]| -> Vec<String> {
+            diags.iter().filter(|d| is_spelling(d)).map(|d| diag_text(&text, d)).filter(|w| set.contains(w.as_str())).collect()
+        };
+        let describe = |w: &str| -> String {
+            let at = content.find(w).unwrap_or(0);
+            format!("{w:?} (bytes {at}..{} of the {}-byte dictionary file)", at + w.len(), content.len())
+        };
+        ctx.class_if(content.len() > 8192, "dictionary_file_over_8KiB");
+        ctx.class_if(c.symlink, "dictionary_is_a_symbolic_link");
+        ctx.class_if(c.crlf, "crlf_dictionary_file");
+        ctx.nontrivial(c);
+
+        let mut srv = Server::start(&sb, sb.settings(json!({})), None)?;
+        let d = srv.open(&uri, "plaintext", &text)?;
+        if !d.iter().any(|d| is_spelling(d) && diag_text(&text, d) == "frobnix") {
+            let _ = srv.shutdown();
+            return Ok(Err("control failed: the unknown word frobnix is not reported".into()));
+        }
+        if !d.iter().any(|d| is_spelling(d) && diag_text(&text, d) == "ùúûüýÿḁḃ") {
+            let _ = srv.shutdown();
+            return Ok(Err("control failed: an unknown word of accented Latin letters is not reported (are such words checked at all?)".into()));
+        }
+        if let Some(w) = reported(&d).first() {
+            let _ = srv.shutdown();
+            return Ok(Err(format!("the dictionary file lists {} but the word is reported ({} dictionary words reported in all)", describe(w), reported(&d).len())));
+        }
+        let d = srv.execute_and_publish("HarperAddToUserDict", json!(["frobnix", uri]), &uri)?;
+        if let Some(w) = reported(&d).first() {
+            let _ = srv.shutdown();
+            return Ok(Err(format!("after adding another word, dictionary word {} is reported", describe(w))));
+        }
+        srv.shutdown()?;
+        let mut want: BTreeSet<String> = words.iter().cloned().collect();
+        want.insert("frobnix".into());
+        let got = read_lines(&real);
+        if got != want {
+            let lost: Vec<&String> = want.iter().filter(|w| !got.contains(*w)).take(3).collect();
+            let odd: Vec<&String> = got.iter().filter(|w| !want.contains(*w)).take(3).collect();
+            return Ok(Err(format!(
+                "after adding one word to a dictionary of {} words the file holds {} lines; missing {:?}, unexpected {:?}",
+                words.len(), got.len(), lost, odd
+            )));
+        }
+        if c.symlink {
+            let still_link = std::fs::symlink_metadata(&link).map(|m| m.file_type().is_symlink()).unwrap_or(false);
+            if !still_link {
+                return Ok(Err("the configured dictionary was a symbolic link; after a save it is a regular file and the file it pointed to is no longer the dictionary".into()));
+            }
+        }
+        // a new process reads the saved file
+        let mut srv = Server::start(&sb, sb.settings(json!({})), None)?;
+        let d = srv.open(&uri, "plaintext", &text)?;
+        let bad = reported(&d);
+        let frob = d.iter().any(|d| is_spelling(d) && diag_text(&text, d) == "frobnix");
+        srv.shutdown()?;
+        if let Some(w) = bad.first() {
+            return Ok(Err(format!("after a restart dictionary word {} is reported ({} in all)", describe(w), bad.len())));
+        }
+        if frob {
+            return Ok(Err("after a restart the added word frobnix is reported again".into()));
+        }
+        Ok(Ok(()))
+    })();
+    match r {
+        Ok(r) => r,
+        Err(e) => {
+            ctx.infra(e);
+            Ok(())
+        }
+    }
 }
 
 // ------------------------------------------------------------------------------------------------
@@ -986,7 +1140,7 @@ pub fn test_write_failure(c: &CrashCase, ctx: &mut CaseCtx) -> Result<(), String
 
 pub fn run(run: &mut Run) {
     run.level = "fault_enumeration".into();
-    run.rule = "(a) LSP histories on the real harper-ls (sandboxed HOME/XDG, buffer = disk): 1-3 documents (plain, Markdown, Rust, Python) mentioning non-words from an 18-word vocabulary (ASCII, non-ASCII Latin, straight and curly apostrophes); ops AddToUserDict / AddToFileDict (word = text under a published spelling diagnostic, as a code action sends it), Change, Restart; after every step: added words are no longer reported in any subsequently checked text they apply to, all other diagnostics unchanged, a file-dictionary word does not leak to other files, the dictionary file (lines as a set) equals the model, a restart reproduces the diagnostics. (c) crash points: the save is recorded under strace; every prefix of the globally ordered file mutations, and every short write, is replayed in a file-system model (checked to reproduce the real final state) and must reload to the previous words or the previous words plus the new one. (b) js_import_histories: histories of import_words / lint / persist (export_words, new Linter, import_words) on the wasm-facing Linter with the same vocabulary plus curated words and their re-capitalisations; after every step export_words equals the set imported so far, no imported word is reported as misspelt, and every other lint equals what a linter without imported words reports. (d) write_error_during_save: the server runs with RLIMIT_FSIZE at half the dictionary size (SIGXFSZ ignored) so that the rewrite fails part-way with EFBIG; the dictionary file must still hold every earlier word. Non-trivial (a) = >=2 adds and (a restart or a second document); (c) = pre-state with >=2 words.".into();
+    run.rule = "(a) LSP histories on the real harper-ls (sandboxed HOME/XDG, buffer = disk): 1-3 documents (plain, Markdown, Rust, Python) mentioning non-words from an 18-word vocabulary (ASCII, non-ASCII Latin, straight and curly apostrophes); ops AddToUserDict / AddToFileDict (word = text under a published spelling diagnostic, as a code action sends it), Change, Restart; after every step: added words are no longer reported in any subsequently checked text they apply to, all other diagnostics unchanged, a file-dictionary word does not leak to other files, the dictionary file (lines as a set) equals the model, a restart reproduces the diagnostics. (c) crash points: the save is recorded under strace; every prefix of the globally ordered file mutations, and every short write, is replayed in a file-system model (checked to reproduce the real final state) and must reload to the previous words or the previous words plus the new one. (b) js_import_histories: histories of import_words / lint / persist (export_words, new Linter, import_words) on the wasm-facing Linter with the same vocabulary plus curated words and their re-capitalisations; after every step export_words equals the set imported so far, no imported word is reported as misspelt, and every other lint equals what a linter without imported words reports. (e) large_dictionaries: pre-existing user dictionaries of 2-1800 words spelt in 2- and 3-byte Latin letters (a padding word shifts them against block boundaries), LF or CRLF, as a regular file or as a relative symbolic link: no listed word is reported after load, after another add and after a restart; the file holds exactly the old words plus the new one; a link stays a link. (d) write_error_during_save: the server runs with RLIMIT_FSIZE at half the dictionary size (SIGXFSZ ignored) so that the rewrite fails part-way with EFBIG; the dictionary file must still hold every earlier word. Non-trivial (a) = >=2 adds and (a restart or a second document); (c) = pre-state with >=2 words.".into();
     run.threads = run.threads.min(8);
     case_variant_subrun(run);
     run.max_shrink_iters = 80;
@@ -1023,6 +1177,19 @@ pub fn run(run: &mut Run) {
     run.prop("js_import_histories", n, js_strategy, test_js_history);
     run.require_class("js_import_histories", "export_new_linter_import", (n / 10) as u64);
     run.require_class("js_import_histories", "imports_relative_of_curated_word", (n / 4) as u64);
+    let n = run.n(24, 400);
+    run.prop(
+        "large_dictionaries",
+        n,
+        || {
+            (prop_oneof![1 => 2usize..40, 3 => 600usize..1800], 0u8..12, prop::bool::weighted(0.3), prop::bool::weighted(0.25))
+                .prop_map(|(words, shift, symlink, crlf)| LargeDictCase { words, shift, symlink, crlf })
+                .boxed()
+        },
+        test_large_dict,
+    );
+    run.require_class("large_dictionaries", "dictionary_file_over_8KiB", (n / 2) as u64);
+    run.require_class("large_dictionaries", "dictionary_is_a_symbolic_link", (n / 8) as u64);
     let faults = vec![
         CrashCase { pre_words: 800, new_word: "frobnix".into(), user: true },
         CrashCase { pre_words: 300, new_word: "naïvetéx".into(), user: false },
@@ -1039,7 +1206,10 @@ pub fn run(run: &mut Run) {
 
 pub fn replay(check: &str, case: Value, _run: &mut Run) -> Result<(), String> {
     let mut ctx = CaseCtx::default();
-    let r = if check == "js_import_histories" {
+    let r = if check == "large_dictionaries" {
+        let c: LargeDictCase = serde_json::from_value(case).map_err(|e| e.to_string())?;
+        test_large_dict(&c, &mut ctx)
+    } else if check == "js_import_histories" {
         let c: JsCase = serde_json::from_value(case).map_err(|e| e.to_string())?;
         test_js_history(&c, &mut ctx)
     } else if check == "write_error_during_save" {
